@@ -1024,6 +1024,8 @@ var vfC16FOps = []vfC16FOp{
 	{"o:set topic avatar f1", "tavatar", "o", []int{0}, 0},
 	{"m:set account avatar f2", "uavatar", "m", []int{1}, 0},
 	{"o:set topic avatar f2", "tavatar", "o", []int{1}, 0},
+	{"o:create a group with avatar f1", "newtopic", "o", []int{0}, 0},
+	{"new account with avatar f2", "newacc", "m", []int{1}, 0},
 	{"o:hard-delete msg 1", "delmsg", "o", nil, 1},
 	{"o:hard-delete msg 2", "delmsg", "o", nil, 2},
 	{"o:delete topic (hard)", "deltopic", "o", nil, 0},
@@ -1059,6 +1061,7 @@ type vfC16FUp struct {
 	Old   bool
 	Gone  bool     // collected
 	Extra []string // links the implementation holds beyond the model (after a reported violation)
+	More  []string // links to topics / accounts created with this upload as their avatar ("topic:new", "user:new")
 }
 
 type vfC16FMsg struct {
@@ -1122,6 +1125,7 @@ func (m *vfC16FModel) links(u *vfC16FUp) []string {
 		out = append(out, "user")
 	}
 	out = append(out, u.Extra...)
+	out = append(out, u.More...)
 	sort.Strings(out)
 	return out
 }
@@ -1274,6 +1278,29 @@ func vfC16FExec(hist []int, last bool) vfXResult {
 					}
 				}
 			}
+		case "newtopic":
+			u := m.url(op.Slots[0])
+			nt := len(x.w.db.Topics())
+			code, _ = x.cl[op.User].Req(`{"sub":{"id":"$ID","topic":"new%d","set":{"desc":{"public":{"fn":"N","photo":{"ref":"%s"}}}}},"extra":{"attachments":["%s"]}}`, i, u, u)
+			if len(x.w.db.Topics()) > nt {
+				if nu := m.live(op.Slots[0]); nu != nil {
+					nu.More = append(nu.More, "topic:new")
+				}
+			}
+		case "newacc":
+			u := m.url(op.Slots[0])
+			nusers := len(x.w.db.Users())
+			nc := x.w.vfConnect(fmt.Sprintf("n%d", i))
+			vsched.Quiesce()
+			nc.Req(`{"hi":{"id":"$ID","ver":"0.22"}}`)
+			code, _ = nc.Req(`{"acc":{"id":"$ID","user":"new","scheme":"basic","secret":"%s","login":false,"desc":{"public":{"fn":"N","photo":{"ref":"%s"}}}},"extra":{"attachments":["%s"]}}`,
+				vfB64([]byte(fmt.Sprintf("newuser%d:secret123", i))), u, u)
+			nc.Disconnect()
+			if len(x.w.db.Users()) > nusers {
+				if nu := m.live(op.Slots[0]); nu != nil {
+					nu.More = append(nu.More, "user:new")
+				}
+			}
 		case "delmsg":
 			code, _ = x.cl[op.User].Req(`{"del":{"id":"$ID","topic":"%s","what":"msg","hard":true,"delseq":[{"low":%d}]}}`, x.grp, op.Arg)
 		case "deltopic":
@@ -1417,7 +1444,7 @@ func vfC16FExec(hist []int, last bool) vfXResult {
 			for _, l := range exp {
 				inExp[l] = true
 				if !inGot[l] {
-					if op.Kind == "pub" || op.Kind == "tavatar" || op.Kind == "uavatar" {
+					if op.Kind == "pub" || op.Kind == "tavatar" || op.Kind == "uavatar" || op.Kind == "newtopic" || op.Kind == "newacc" {
 						bad("C16:attachment-not-linked:"+site, fmt.Sprintf("upload #%d must be linked to %s, it is linked to %v", u.N, l, got), nil)
 					} else {
 						bad("C16:link-lost:"+site, fmt.Sprintf("upload #%d lost its link to %s, it is linked to %v", u.N, l, got), nil)
@@ -1530,12 +1557,17 @@ func vfC16FActualLinks(x *vfC16FWorld) map[types.Uid][]string {
 		case l.Topic != "":
 			s = "topic"
 			if l.Topic != x.grp {
-				s = "topic:" + l.Topic
+				s = "topic:new" // a group created by the "newtopic" operation
 			}
 		default:
 			s = "user"
 			if l.User != x.users["m"].uid {
-				s = "user:" + l.User.String()
+				s = "user:new" // an account created by the "newacc" operation
+				for _, ku := range x.users {
+					if ku.uid == l.User {
+						s = "user:" + l.User.String()
+					}
+				}
 			}
 		}
 		out[l.File] = append(out[l.File], s)
